@@ -112,7 +112,7 @@ def replaceJudge (f : List String) (out : String) : String :=
       | some b => Casket.ReplacerSpec.verdict c.env c.fmt (.out b)
 
 /-!
-  c20.log  directives conc requests errlens wrap writer   (wrap: - | errors | rewrite; writer: plain | rf | h1, Go side only)
+  c20.log  directives conc requests errlens wrap writer   (wrap: - | errors | rewrite | gzip; writer: plain | rf | h1, Go side only)
      ops   h<code> | w<n> | c<n> io.Copy | n<n> io.CopyN | s<n> ServeContent | f Flush | p<hex> r.URL.Path = … | u<hex> r.URL = new URL
      directives  ','-separated  D<hex scope>[:<hex except>]*        (one `log` directive each, in file order)
      requests    ','-separated  <hex path>:<ops>:<ret>:<0|1 panics>  ops '.'-separated h<code> | w<n>
@@ -169,6 +169,8 @@ def parseErrLens (s : String) : Option (List (Nat × Nat)) :=
     | _ => none
 
 structure LogCase where
+  /-- with gzip inside, sizes in the answer are differences to what the client received -/
+  sizeDiffs : Bool := false
   ds : List Casket.Log.Directive
   reqs : List (Bytes × Casket.Log.Outcome)
   errLen : Nat → Nat
@@ -183,11 +185,13 @@ def parseLog : List String → Option LogCase
     -- wrap = rewrite (the real rewrite directive changes r.URL.Path in place) needs nothing here:
     -- the model's decision does not depend on the path the inner handlers leave behind
     let reqs := if wrap = "errors" then reqs.map fun (p, o) => (p, Casket.Log.withErrors errLen o) else reqs
-    pure { ds := ds, reqs := reqs, errLen := errLen }
+    let reqs := if wrap = "gzip" then reqs.map fun (p, o) => (p, Casket.Log.withGzip errLen o) else reqs
+    pure { sizeDiffs := wrap = "gzip", ds := ds, reqs := reqs, errLen := errLen }
   | _ => none
 
 open Casket.Log in
-def showLine (id : Nat) (l : Line) : String := s!"{id}.{l.status}.{l.size}"
+def showLine (diffs : Bool) (id : Nat) (l : Line) : String :=
+  if diffs then s!"{id}.{l.status}.0" else s!"{id}.{l.status}.{l.size}"
 
 open Casket.Log in
 def logModel (f : List String) : String :=
@@ -199,8 +203,9 @@ def logModel (f : List String) : String :=
     let ids := List.range rs.length
     let perEntry := (List.range c.ds.length).map fun e =>
       "|".intercalate ((ids.zip rs).flatMap fun (id, r) =>
-        (r.lines.filter fun (l : Line) => l.entry == e).map (showLine id))
-    let clients := rs.map fun r => s!"{r.client.status}.{r.client.size}"
+        (r.lines.filter fun (l : Line) => l.entry == e).map (showLine c.sizeDiffs id))
+    let clients := rs.map fun r =>
+      if c.sizeDiffs then s!"{r.client.status}.0" else s!"{r.client.status}.{r.client.size}"
     ";".intercalate perEntry ++ "#" ++ ",".intercalate clients
 
 def parseObsLine (s : String) : Option (Nat × Nat × Nat) :=
@@ -233,7 +238,20 @@ def logJudge (f : List String) (out : String) : String :=
     | _, _ => "bad:unparsable:" ++ out
   | _, _ => "bad:unparsable:" ++ out
 
+/-!
+  c20.inject  format target user        out = lf=<n> cr=<m>: LF and CR bytes in the log after ONE request
+     the model: one record is one physical line (the formats of this stream contain no line break)
+-/
+def injectModel (_ : List String) : String := "lf=1 cr=0"
+
+def injectJudge (_ : List String) (out : String) : String :=
+  if out = "lf=1 cr=0" then "ok"
+  else if out.startsWith "lf=" then
+    "bad:line-split:one request produced a log record spanning several physical lines (" ++ out ++ ")"
+  else "bad:unparsable:" ++ out
+
 def streams : List Driver.Stream := [
+  { name := "c20.inject", model := injectModel, judge := injectJudge },
   { name := "c20.replace", model := replaceModel, judge := replaceJudge },
   { name := "c20.log", model := logModel, judge := logJudge }
 ]
